@@ -2,18 +2,19 @@
    factors.  Statements only (MathComp; F ranges over all real closed fields, the dimension
    over all n = p+1: the property's range 1..8 is a sub-case; SmallVec's heap spill above
    6x6 is invisible to the model and exercised by the correspondence).
-   HYPOTHESIS kept visible: the pivots d_c = M_cc - sum_{k<c} q_ck^2 met by the model's
-   Cholesky loop are positive.  That symmetric positive-definite matrices have positive pivots
-   (Schur-complement induction) is NOT proved here; the check decides positive definiteness
-   exactly in rationals on every generated case.  Rounding: the accuracy clause "to a relative
-   accuracy proportional to the condition number" is covered by the correspondence tolerance
-   (1e-13*n*kappa with kappa exact), not by these exact-field theorems. *)
+   The matrix is assumed symmetric and positive definite (x M x^T > 0 for every non-zero row
+   vector x); that the pivots d_c = M_cc - sum_{k<c} q_ck^2 met by the model's Cholesky loop
+   are then positive is PROVED (C15_pivots, Proofs/SPD.v: induction on the column with the
+   vector e_c Qc^-1), it is no longer a hypothesis.  Rounding: the accuracy clause "to a
+   relative accuracy proportional to the condition number" is covered by the correspondence
+   tolerance (1e-13*n*kappa with kappa exact), not by these exact-field theorems. *)
 From Coq Require Import ZArith List.
 From mathcomp Require Import all_ssreflect all_algebra.
-From MT Require Import Model.Scalar Model.Matrix Proofs.CholSpec Proofs.LinAlg.
+From mathcomp Require Import ring.
+From MT Require Import Model.Scalar Model.Matrix Proofs.CholSpec Proofs.LinAlg Proofs.SPD.
 Set Implicit Arguments.
 Unset Strict Implicit.
-Import GRing.Theory Num.Theory.
+Import Order.TTheory GRing.Theory Num.Theory.
 Local Open Scope ring_scope.
 
 Section C15.
@@ -22,14 +23,18 @@ Variables (p : nat) (m : list F).
 Let n := p.+1.
 Let M := mx_of n m.
 Hypothesis Msym : forall i j : 'I_n, M i j = M j i.
-Hypothesis Hpiv : forall c : 'I_n, 0 < pivot (FS F) n m c.
+Hypothesis Mpos : forall x : 'rV[F]_n, x != 0 -> 0 < (x *m M *m x^T) 0 0.
+
+(* positive definiteness makes every pivot of the model's Cholesky loop positive *)
+Theorem C15_pivots : forall c : 'I_n, 0 < pivot (FS F) n m c.
+Proof. exact: (spd_pivots_pos Msym Mpos). Qed.
 
 (* the Cholesky factor of the model: lower triangular, positive diagonal, Q Q^T = M *)
 Theorem C15_chol :
   is_trig_mx (Qmx n m) /\ (forall c : 'I_n, 0 < Qmx n m c c) /\ Qmx n m *m (Qmx n m)^T = M.
 Proof.
-  split; first exact: Q_trig. split; last exact: cholesky_correct.
-  by move=> c; rewrite mxE; exact: (q_diag_pos Hpiv).
+  split; first exact: Q_trig. split; last exact: (cholesky_correct Msym C15_pivots).
+  by move=> c; rewrite mxE; exact: (q_diag_pos C15_pivots).
 Qed.
 
 (* the routine returns Ok, and the four results are: q_transposed = Q^T (so its transpose
@@ -43,7 +48,7 @@ Theorem C15_results :
       mx_of n (d_inverse r) *m M = 1%:M /\ M *m mx_of n (d_inverse r) = 1%:M,
       (mx_of n (d_inverse r))^T = mx_of n (d_inverse r) &
       d_determinant r = \det M].
-Proof. split; [exact: decompose_ok_of_pivots | exact: decomp_fields_correct]. Qed.
+Proof. split; [exact: (decompose_ok_of_pivots C15_pivots) | exact: (decomp_fields_correct Msym C15_pivots)]. Qed.
 
 End C15.
 
@@ -54,12 +59,37 @@ Theorem C15_nilpotent : forall (F : rcfType) (p : nat) (N : 'M[F]_p.+1),
   (\sum_(k < p.+1) (- N) ^+ k) * (1 + N) = 1.
 Proof. exact: neumann_inverse. Qed.
 
+Print Assumptions C15_pivots.
 Print Assumptions C15_chol.
 Print Assumptions C15_results.
 Print Assumptions C15_nilpotent.
 
-(* non-vacuity: the hypotheses hold for [[4,2],[2,3]] over the exact rationals-as-reals of any
-   rcfType: pivots 4 and 3 - (2/2)^2 = 2 *)
-Example C15_example (F : rcfType) :
-  pivot (FS F) 2 [:: 4%:R; 2%:R; 2%:R; 3%:R] 0 = 4%:R :> F.
-Proof. by rewrite /pivot /=. Qed.
+(* non-vacuity: [[4,2],[2,3]] over any real closed field is symmetric and positive definite
+   (x M x^T = (2a+b)^2 + 2b^2), so C15_pivots, C15_chol and C15_results apply to it *)
+Example C15_spd_example (F : rcfType) :
+  let m : list F := [:: 4%:R; 2%:R; 2%:R; 3%:R] in
+  (forall i j : 'I_2, mx_of 2 m i j = mx_of 2 m j i) /\
+  (forall x : 'rV[F]_2, x != 0 -> 0 < (x *m mx_of 2 m *m x^T) 0 0).
+Proof.
+  move=> m; split.
+  - by move=> [[|[|i]] Hi] [[|[|j]] Hj] //; rewrite !mxE.
+  - move=> x Hx.
+    have E : (x *m mx_of 2 m *m x^T) 0 0 = (2%:R * x 0 0 + x 0 1) ^+ 2 + 2%:R * (x 0 1) ^+ 2.
+      rewrite !mxE !big_ord_recl !big_ord0 !mxE /= !big_ord_recl !big_ord0 !mxE /=.
+      rewrite /mget /=. 
+      have -> : (lift ord0 ord0 : 'I_2) = 1 by apply/ord_inj.
+      change (x 0 ord0) with (x 0 0). move: (x 0 0) (x 0 1) => a b. ring.
+    rewrite E.
+    have H0 : 0 <= (2%:R * x 0 0 + x 0 1) ^+ 2 by exact: sqr_ge0.
+    have H1 : 0 <= 2%:R * x 0 1 ^+ 2 by rewrite mulr_ge0 ?sqr_ge0 // ler0n.
+    case B: (x 0 1 == 0).
+    + rewrite (eqP B) expr0n /= mulr0 addr0 addr0.
+      have Hx0 : x 0 0 != 0.
+        apply: contraNneq Hx => A0; apply/eqP/rowP => k; rewrite [RHS]mxE.
+        case: k => [[|[|k]] Hk] //.
+        * by have -> : Ordinal Hk = 0 :> 'I_2 by apply/ord_inj.
+        * have -> : Ordinal Hk = 1 :> 'I_2 by apply/ord_inj.
+          exact: (eqP B).
+      by rewrite lt_def sqr_ge0 sqrf_eq0 mulf_neq0 // pnatr_eq0.
+    + apply: ltr_paddl => //. by rewrite mulr_gt0 ?ltr0n // lt_def sqr_ge0 sqrf_eq0 B.
+Qed.
